@@ -196,7 +196,7 @@ def apply_event(st, ev):
                     o.init_from_channel_matrix(*args)
             elif ev[1] == "negative_noise_var":
                 o.noise_var = -0.5
-        except (ValueError, AssertionError) as e:
+        except Exception as e:  # noqa  (how an invalid call is refused is free: INVALID_CALL_POLICY)
             raised = e
         st.rejected = (ev[1], raised is not None, bfs.digest(bfs.state_of(o), 12) == before)
     elif kind == "rd":
